@@ -9,6 +9,7 @@ class and to the constraint list of the OPB class.
 -/
 import Lemmas.FamRamsey
 import Lemmas.FamCpls
+import Lemmas.FamPitfallAxioms
 import Mathlib.Tactic.IntervalCases
 namespace Cnfgen.C03
 open Cnfgen Cnfgen.Fam Cnfgen.FamRamsey
@@ -448,5 +449,175 @@ example : ∃ F, Cpls.cpls 3 4 2 = .ok F ∧ F.nvars = 52 ∧ F.cons.length = 74
   obtain ⟨F, hF⟩ := cpls_accepts 3 2 1 (by omega)
   have := cpls_counts_wf 3 2 1 (by omega) F hF
   exact ⟨F, hF, by simpa using this.1, by simpa using this.2.1⟩
+
+/-! ## Pitfall formula (`PitfallFormula(v, d, ny, nz, k)`)
+
+The random `d`-regular graph drawn by networkx is the input `g` of the model; the theorems hold for
+EVERY graph object `g` (regular or not) with at least one vertex. -/
+
+/-- what every `cnfgen.graphs.Graph` object satisfies: the adjacency lists of the vertices `1..n` are
+strictly increasing, stay inside `1..n`, have no loops and are symmetric -/
+def GraphOK (g : SimpleG) : Prop :=
+  ∀ v, 1 ≤ v → v ≤ g.n →
+    (g.nbrs v).Pairwise (· < ·) ∧ ∀ u ∈ g.nbrs v, 1 ≤ u ∧ u ≤ g.n ∧ u ≠ v ∧ v ∈ g.nbrs u
+
+/-- … in particular every graph built by `Graph(n)` + `add_edge` (what `Graph.normalize` does with the
+networkx graph, and what the driver does with the graph the harness observed) -/
+theorem graph_ok_of_edges (n : Nat) (es : List (Nat × Nat)) (g : SimpleG)
+    (h : SimpleG.ofEdges n es = .ok g) : GraphOK g ∧ g.n = n :=
+  FamPitfall.ofEdges_ok n es g h
+
+/-- the generator's own parameter check accepts exactly these parameters … -/
+theorem pitfall_check_iff (v d ny nz k : Int) :
+    Pitfall.check v d ny nz k = .ok () ↔
+      1 ≤ v ∧ 1 ≤ d ∧ 1 ≤ ny ∧ 2 ≤ nz ∧ 1 ≤ k ∧ k % 2 = 0 ∧ d ≤ v ∧ v * d % 2 ≠ 1 :=
+  FamPitfall.check_iff v d ny nz k
+
+/-- … and answers everything else (odd `k`, `nz < 2`, `d > v`, odd `v·d`, non-positive values) with
+`ValueError` -/
+theorem pitfall_check_ok_or_valueError (v d ny nz k : Int) :
+    Pitfall.check v d ny nz k = .ok () ∨ Pitfall.check v d ny nz k = .error .valueError :=
+  FamPitfall.check_ok_or_valueError v d ny nz k
+
+/-- "parameters for which no `d`-regular graph on `v` vertices can be drawn raise `ValueError`" -/
+def UndrawableRaisesValueError : Prop :=
+  ∀ v d ny nz k : Int, Pitfall.drawable v d = false → Pitfall.check v d ny nz k = .error .valueError
+
+/-- finding D30: false for `d = v` — the check lets `pitfall 2 2 2 2 2` through and networkx raises its own
+`NetworkXError` -/
+theorem undrawable_raises_valueError_false : ¬ UndrawableRaisesValueError := by
+  intro h
+  have := h 2 2 2 2 2 (by decide)
+  exact absurd this (by decide)
+
+theorem undrawable_raises_valueError_partial (v d ny nz k : Int) (hdv : d ≠ v)
+    (h : Pitfall.drawable v d = false) : Pitfall.check v d ny nz k = .error .valueError := by
+  rcases FamPitfall.check_ok_or_valueError v d ny nz k with hc | hc
+  · exfalso
+    obtain ⟨h1, h2, _, _, _, _, h7, h8⟩ := (FamPitfall.check_iff v d ny nz k).1 hc
+    have : Pitfall.drawable v d = true := by
+      simp only [Pitfall.drawable, decide_eq_true_eq]
+      refine ⟨by omega, by omega, ?_⟩
+      have := Int.emod_two_eq (v * d); omega
+    rw [this] at h; exact Bool.noConfusion h
+  · exact hc
+
+/-- the template `TseitinFormula(g, [True])` (odd total charge) is unsatisfiable — double counting -/
+theorem tseitin_template_unsat (g : SimpleG) (hg : GraphOK g) (hn : 1 ≤ g.n) (β : Assign) :
+    (PitfallTseitin.template g).holds β = false :=
+  FamPitfall.template_unsat g hg hn β
+
+/-- each hard clause is a template clause renamed into block `j`, followed by `z_{j,1} … z_{j,nz}` … -/
+theorem pitfall_hard_part_is_copy (s : Pitfall.Shape) (T : List Clause) (j : Nat) (con : Con) :
+    con ∈ Pitfall.hardCopy s T j ↔
+      ∃ cl ∈ T, con = Con.clause (cl.map (Pitfall.shiftLit ((s.xStart j : Int) - 1)) ++ s.zs j) :=
+  FamPitfall.pitfall_hard_part_is_copy s T j con
+
+/-- … where "renamed" means: the literal over template variable `a` becomes the literal of the same sign
+over variable `a + (j-1)·m` (the `j`-th copy of the edge variables); this is the statement that the
+defect D29 falsified -/
+theorem pitfall_shift_is_renaming (s : Pitfall.Shape) (j : Nat) (α : Assign) (cl : Clause) :
+    clauseHolds α (cl.map (Pitfall.shiftLit ((s.xStart j : Int) - 1))) =
+      clauseHolds (fun a => α (a + (j - 1) * s.m)) cl := by
+  rw [FamPitfall.xStart_off]; exact FamPitfall.shift_holds α _ cl
+
+theorem pitfall_shift_stays_in_block (s : Pitfall.Shape) (j : Nat) (cl : Clause)
+    (h : ∀ l ∈ cl, l ≠ 0 ∧ l.natAbs ≤ s.m) :
+    ∀ l ∈ cl.map (Pitfall.shiftLit ((s.xStart j : Int) - 1)),
+      l ≠ 0 ∧ s.xStart j ≤ l.natAbs ∧ l.natAbs ≤ s.xStart j + s.m - 1 :=
+  FamPitfall.shift_vars_in_block s j cl h
+
+/-- the formula consists of exactly the five documented groups, for the copies `j = 1..k`:
+hard copies, pitfall gadgets, pipe gadgets, tail gadgets, and Γ -/
+theorem pitfall_axiom_groups (ny nz k : Nat) (g : SimpleG) (con : Con) :
+    con ∈ (Pitfall.build ny nz k g).cons ↔
+      let s : Pitfall.Shape := ⟨g.edges.length, ny, nz, k⟩
+      (∃ j, (1 ≤ j ∧ j ≤ k) ∧ con ∈ Pitfall.hardCopy s (PitfallTseitin.template g).clauses j) ∨
+      (∃ j, (1 ≤ j ∧ j ≤ k) ∧ con ∈ Pitfall.pitfallGadget s j) ∨
+      (∃ j, (1 ≤ j ∧ j ≤ k) ∧ con ∈ Pitfall.pipeGadget s j) ∨
+      (∃ j, (1 ≤ j ∧ j ≤ k) ∧ con ∈ Pitfall.tailGadget s j) ∨
+      con ∈ Pitfall.gamma s :=
+  FamPitfall.mem_build ny nz k g con
+
+/-- pitfall gadget of copy `j`: `y_{j,i1} ∨ y_{j,i2} ∨ ¬p_{j,t}` for `i1 < i2`, every `t` -/
+theorem pitfall_gadget_axioms (s : Pitfall.Shape) (j : Nat) (con : Con) :
+    con ∈ Pitfall.pitfallGadget s j ↔
+      ∃ i1 i2 t, (1 ≤ i1 ∧ i1 < i2 ∧ i2 ≤ s.ny) ∧ (1 ≤ t ∧ t ≤ s.m + s.nz) ∧
+        con = Con.clause [(s.yId j i1 : Int), (s.yId j i2 : Int), -(s.pId j t : Int)] :=
+  FamPitfall.mem_pitfallGadget s j con
+
+/-- pipe gadget of copy `j`, for every `y_{j,i}`: with `S = X_j ++ Z_j`, clause `t` is
+`y ∨ (P_j without its element m+nz-1-t) ∨ S_0 ∨ … ∨ S_{t-1} ∨ ¬S_t`; the last clause omits `z_{j,1}` -/
+theorem pipe_gadget_axioms (s : Pitfall.Shape) (j : Nat) (con : Con) :
+    con ∈ Pitfall.pipeGadget s j ↔
+      ∃ i t, (1 ≤ i ∧ i ≤ s.ny) ∧ t < s.m + s.nz ∧
+        con = Con.clause ([(s.yId j i : Int)] ++ (s.ps j).eraseIdx (s.m + s.nz - 1 - t) ++
+          (if t + 1 = s.m + s.nz then ((s.xs j ++ s.zs j).take t).eraseIdx s.m
+            else (s.xs j ++ s.zs j).take t) ++
+          [-((s.xs j ++ s.zs j).getD t 0)]) :=
+  FamPitfall.mem_pipeGadget s j con
+
+/-- tail gadget of copy `j`: four clauses per pair `y_{j,i}`, `z_{j,r}` -/
+theorem tail_gadget_axioms (s : Pitfall.Shape) (j : Nat) (con : Con) :
+    con ∈ Pitfall.tailGadget s j ↔
+      ∃ i r, (1 ≤ i ∧ i ≤ s.ny) ∧ (1 ≤ r ∧ r ≤ s.nz) ∧
+        (con = Con.clause [-(s.aId j 1 : Int), (s.aId j 3 : Int), -(s.zId j r : Int)] ∨
+         con = Con.clause [-(s.aId j 2 : Int), -(s.aId j 3 : Int), -(s.zId j r : Int)] ∨
+         con = Con.clause [(s.aId j 1 : Int), -(s.zId j r : Int), -(s.yId j i : Int)] ∨
+         con = Con.clause [(s.aId j 2 : Int), -(s.zId j r : Int), -(s.yId j i : Int)]) :=
+  FamPitfall.mem_tailGadget s j con
+
+/-- Γ: for odd `i < ny` the clause `⋁_{j=1..k} (¬y_{j,i} ∨ ¬y_{j,i+1})` -/
+theorem gamma_axioms (s : Pitfall.Shape) (con : Con) :
+    con ∈ Pitfall.gamma s ↔
+      ∃ i, (1 ≤ i ∧ i % 2 = 1 ∧ i < s.ny) ∧
+        con = Con.clause ((rangeN 1 (s.k + 1)).flatMap
+          (fun j => [-(s.yId j i : Int), -(s.yId j (i + 1) : Int)])) :=
+  FamPitfall.mem_gamma s con
+
+/-- documented variable count (`k` copies of: `m` edge, `ny` easy, `nz` safety, `m + nz` pitfall and 3 tail
+variables, `m` = number of edges of `g`) and well-formedness -/
+theorem pitfall_nvars_wf (ny nz k : Nat) (g : SimpleG) (hg : GraphOK g) :
+    (Pitfall.build ny nz k g).nvars =
+      k * g.edges.length + k * ny + k * nz + k * (g.edges.length + nz) + k * 3 ∧
+    (Pitfall.build ny nz k g).WF :=
+  ⟨FamPitfall.build_nvars ny nz k g, FamPitfall.build_wf ny nz k g hg⟩
+
+/-- Pitfall is a contradiction for every accepted parameter choice with at least two pitfall variables
+(`ny ≥ 2`) and EVERY graph that may have been drawn: the Tseitin copy forces some `z_{1,·}` true, the tail
+gadget then forces every `y_{1,·}` false, the pitfall gadget every `p_{1,·}` false, and the pipe gadget
+every `z_{1,·}` false.  Also for the clauses of the CNF class and the constraints of the OPB class. -/
+theorem pitfall_unsat (v d ny nz k : Int) (g : SimpleG) (hg : GraphOK g) (hn : 1 ≤ g.n)
+    (hny : 2 ≤ ny) (F : Formula) (h : Pitfall.pitfall v d ny nz k g = .ok F) (α : Assign) :
+    F.holds α = false ∧ F.toCNF.holds α = false ∧ F.toOPB.holds α = false := by
+  have hu := FamPitfall.pitfall_unsat v d ny nz k g hg hn hny F h α
+  have hwf : F.WF := by
+    simp only [Pitfall.pitfall, bind, Except.bind] at h
+    split at h
+    · cases h
+    · simp only [pure, Except.pure, Except.ok.injEq] at h
+      subst h; exact FamPitfall.build_wf _ _ _ g hg
+  rw [Formula.toCNF_holds α F hwf, Formula.toOPB_holds α F hwf]
+  exact ⟨hu, hu, hu⟩
+
+/-- the same without hypothesis on the graph, for graphs given by their edge list -/
+theorem pitfall_unsat_of_edges (n : Nat) (es : List (Nat × Nat)) (g : SimpleG)
+    (hg : SimpleG.ofEdges n es = .ok g) (hn : 1 ≤ n) (v d ny nz k : Int) (hny : 2 ≤ ny) (F : Formula)
+    (h : Pitfall.pitfall v d ny nz k g = .ok F) (α : Assign) :
+    F.holds α = false ∧ F.toCNF.holds α = false ∧ F.toOPB.holds α = false := by
+  obtain ⟨hok, hgn⟩ := FamPitfall.ofEdges_ok n es g hg
+  exact pitfall_unsat v d ny nz k g hok (by omega) hny F h α
+
+/-- "at least two pitfall variables" cannot be dropped: `ny = 1` on the 4-cycle is satisfiable -/
+theorem pitfall_one_pitfall_variable_sat :
+    ∃ g, SimpleG.ofEdges 4 [(1,2),(2,3),(3,4),(1,4)] = .ok g ∧ GraphOK g ∧
+      (Pitfall.build 1 2 2 g).holds (fun n => decide (11 ≤ n ∧ n < 27)) = true :=
+  FamPitfall.ny1_sat_example
+
+/-- non-vacuity: `pitfall 4 3 2 2 2` on `K4` (the replay of D29) is accepted and unsatisfiable -/
+example : ∃ g F, SimpleG.ofEdges 4 [(1,2),(1,3),(1,4),(2,3),(2,4),(3,4)] = .ok g ∧
+    Pitfall.pitfall 4 3 2 2 2 g = .ok F ∧ ∀ α, F.holds α = false :=
+  ⟨_, _, rfl, rfl, fun α => (pitfall_unsat_of_edges 4 [(1,2),(1,3),(1,4),(2,3),(2,4),(3,4)] _ rfl (by decide)
+    4 3 2 2 2 (by decide) _ rfl α).1⟩
 
 end Cnfgen.C03
